@@ -405,6 +405,16 @@ func (g *Gen) opInject(conns []*Client, pend []PendingView) {
 				op.Key = "inject:get/answer"
 				if g.isRefetch(pv) {
 					op.Key = "inject:refetch/answer"
+					// a well-formed answer of the other resource type, empty or not, is
+					// malformed for a re-fetch of a resource that is loaded right now
+					name := pv.P.Subject[4:]
+					if js, loaded := cacheJSON(w)[name+"?"+pv.P.Query]; loaded && rapid.IntRange(0, 2).Draw(g.t, "othertype") == 0 {
+						if strings.HasPrefix(js, "[") {
+							op.P = g.sample("othertype", []string{`{"result":{"model":{}}}`, `{"result":{"model":{"a":1}}}`, `{"result":{"model":{},"query":"x"}}`})
+						} else {
+							op.P = g.sample("othertype", []string{`{"result":{"collection":[]}}`, `{"result":{"collection":[1,2]}}`, `{"result":{"collection":[],"query":"x"}}`})
+						}
+					}
 				}
 			case strings.HasPrefix(pv.P.Subject, "access."):
 				op.P, op.Key = g.sample("ianswer", []string{`garbage`, `{"result":5}`, `{"result":{"get":"yes"}}`, `[]`, `{"result":{"get":true,"call":5}}`, `{"meta":5}`, `{"error":"x"}`}), "inject:access/answer"
